@@ -358,6 +358,12 @@ class Symex:
             i = e[1]
             if v[0] == "array" and i[0] == "const":
                 return v[1][i[1]]
+            if v[0] == "call" and v[1] == "vec!" and i[0] == "const" and isinstance(i[1], int) and v[2]:
+                a = v[2][0]
+                while a[0] == "&":
+                    a = a[1]
+                if a[0] == "array" and 0 <= i[1] < len(a[1]):
+                    return a[1][i[1]]
             if v[0] == "upd" and v[2] == ("i", i):
                 return v[3]
             return ("index", v, i)
@@ -921,6 +927,33 @@ def m_index(ex, st, call, args):
         return NotImplemented      # user Index impls are inlined like any other function
     r = args[0]
     i = ex.canon(st, args[1])
+    if i[0] == "const" and isinstance(i[1], int) and r[0] != "ref":
+        xs = _concrete_items(ex, st, r)
+        if xs is not None and 0 <= i[1] < len(xs):
+            return _ret(st, ("&", xs[i[1]]))
+    if i[0] == "adt" and "ops::range::Range" in i[1]:
+        # a sub-slice of a collection with a concrete number of elements and constant bounds
+        xs = _concrete_items(ex, st, r)
+        if xs is not None:
+            vals = [ex.canon(st, b) for b in i[3]]
+            if all(b[0] == "const" and isinstance(b[1], int) for b in vals):
+                n = len(xs)
+                kind = i[1].rsplit("::", 1)[-1]
+                lo, hi = 0, n
+                if kind == "RangeFrom":
+                    lo = vals[0][1]
+                elif kind == "RangeTo":
+                    hi = vals[0][1]
+                elif kind == "Range":
+                    lo, hi = vals[0][1], vals[1][1]
+                elif kind == "RangeToInclusive":
+                    hi = vals[0][1] + 1
+                elif kind == "RangeFull":
+                    pass
+                else:
+                    return NotImplemented
+                if 0 <= lo <= hi <= n:
+                    return _ret(st, ("&", ("array", tuple(xs[lo:hi]))))
     if r[0] == "ref":
         root, path = r[1]
         return _ret(st, ("ref", (root, path + (("idx", i),)), r[2]))
